@@ -57,8 +57,10 @@ def eval_cases(rng, count, extra):
 
 
 def in_hyps(hyps, consts):
-    return (hyps['monotone'] and hyps['windowOk'] and
-            hyps['undatedRun'] <= consts['ATT'] // 2 and
+    # exactly the hypotheses of Sk.C04_position_tight, plus "a line's timestamp lies
+    # within the line" (windowOk) which makes the window oracle the line's own timestamp
+    return (hyps['monotone'] and hyps['windowOk'] and hyps['emptyUndated'] and
+            hyps['endUndated'] and hyps['undatedRun'] + 1 <= consts['ATT'] and
             hyps['longestLine'] <= (consts['EXP'] - 1) * consts['H'])
 
 
@@ -173,6 +175,7 @@ def run(tier, seed, replay_case=None):
     for i, (it, e) in enumerate(zip(items, extras)):
         judge(rep, it, e, tmobs.get(i))
     rep.assumptions = ["timestamp extraction on the 64-byte window is an oracle table",
-                       "hypotheses of C04: dated lines non-decreasing, undated runs <= 250 "
-                       "lines, lines <= 1 MiB - 256, a line's timestamp lies within the line"]
+                       "hypotheses of C04 (= Sk.C04_position_tight): dated lines non-decreasing, "
+                       "undated runs < 500 lines, lines <= 1 MiB - 256, a line's timestamp lies "
+                       "within the line (empty lines / EOF undated)"]
     return rep.finish(aud, RULE)
